@@ -16,8 +16,8 @@ META = {
          "Real protocol+encryption layers of 2-4 accounts run against a stanza-level server double; every conversation script of the grammar is executed under every server schedule with <=k deviations (reorder, duplicate, corrupt) and the exactly-once/ciphertext-only oracle is evaluated on every execution.",
          "Server double is trusted; python-axolotl treated as correct; bounds on script length and deviations stated in evidence.", "3/C03"),
  "C04": ("model_checking", "controlled-scheduler exploration of thread interleavings (preemption-bounded) x chunkings x variants on the real noise stack",
-         "The real network/segments/noise/coder layers and the library's handshake thread run under a scheduler owned by the harness against a Noise responder double; all interleavings up to the preemption bound are executed for every variant/chunking/history of the alphabet.",
-         "Scheduling points at lock/queue operations and layer calls; Noise responder double and dissononce trusted.", "3/C04"),
+         "The real network/segments/noise/coder layers and the library's handshake thread run under a scheduler owned by the harness against a Noise responder double; all interleavings up to the preemption bound are executed for every variant/chunking/history of the alphabet (quick: bound 1; thorough: bound 1 on 102 cases, line-granularity points on the cut-off histories, bound 2 on a 14-case core, every phase run to completion).",
+         "Scheduling points at lock/queue operations and layer calls, environment points where the loop thread waits for the next socket event; Noise responder double and dissononce trusted.", "3/C04"),
  "C05": ("model_checking", "explicit-state BFS over all chunkings on the real segments layer",
          "State = (position, real read buffer, frames delivered); BFS with deduplication covers every chunking of every stream of <=3 frames with 1..5(6) byte payloads, plus boundary-window chunkings of long streams (255..70000 B), and all send size classes incl. the 2^24 limit.",
          "Payload bytes are patterns; layer does not inspect them.", "3/C05"),
@@ -28,7 +28,7 @@ META = {
          "Every stanza kind of the quantifier is injected into the assembled stack for each configuration and the stanzas sent down are compared with the required single acknowledgement.",
          "Kind table hand-written from the statement.", "3/C07"),
  "C08": ("model_checking", "explicit-state BFS over request/reply histories on the real stack registries",
-         "All histories up to a depth over request(kind)/reply(i,result|error)/dup/unknown/noise events are executed on the real assembled stack; callback counts and registry contents compared with a dict model after every event.",
+         "All histories up to a depth over request(kind)/reply(i,result|error)/dup/unknown/noise events are executed on the real assembled stack; callback counts and registry contents compared with a dict model after every event; plus a controlled-scheduler part: the application thread runs _sendIq on the real noise stack while the network thread hands the reply up, all interleavings at preemption bound 1 / 2.",
          "Reply stanzas generated from reference shapes; canonical state abstracts ids to issue ranks.", "3/C08"),
  "C09": ("exploration", "shape-spec driven enumeration of all optional-part subsets x value vectors per entity class",
          "For every entity class reachable from a layer handler, all presence subsets of optional parts x 3 value vectors are converted stanza->entity->stanza (incoming) or entity->stanza->codec->stanza (outgoing) and compared strictly.",
@@ -37,8 +37,8 @@ META = {
          "Every attribute class x every subset of optional fields x value vectors round-trips attribute->bytes->attribute, and reference-built protobufs round-trip proto->attribute->proto by value.",
          "Pure-python protobuf trusted; values from finite alphabets.", "3/C10"),
  "C11": ("model_checking", "controlled-scheduler exploration of sender-thread interleavings (preemption-bounded) with a strict decrypting peer",
-         "2-4 sender threads run through the real coder/noise/segments/network layers under the harness scheduler; every interleaving up to the preemption bound is executed and the wire byte stream is parsed and decrypted in order by a strict peer.",
-         "Scheduling points at lock/queue/layer-call granularity.", "3/C11"),
+         "2-4 sender threads run through the real coder/noise/segments/network layers under the harness scheduler; every interleaving up to the preemption bound is executed and the wire byte stream is parsed and decrypted in order by a strict peer (quick: bound 1; thorough: bound 1 on 14 configurations, line-granularity points on the small ones, bound 2 on the 10 configurations whose space completes).",
+         "Scheduling points at lock/queue/layer-call granularity; environment points between socket events.", "3/C11"),
  "C12": ("fault_enumeration", "fault-site x position x follow-up enumeration with controlled-scheduler exploration of follow-up threads",
          "For every layer of the stack, direction and position in a short operation sequence a failure is injected (or provoked naturally); follow-ups from the same and other threads must complete and all locks be free; interleavings explored up to the preemption bound.",
          "Injected faults are exceptions raised at layer send/receive entry.", "3/C12"),
@@ -52,7 +52,7 @@ META = {
          "All plaintext lengths 0..80 and block-boundary triples up to 64 KiB x patterns x kinds x keys are round-tripped and compared byte-for-byte with an independent HKDF/AES-CBC/HMAC implementation; every byte position x masks and every truncation must be rejected.",
          "`cryptography` primitives trusted; keys from a fixed set.", "3/C15"),
  "C16": ("model_checking", "explicit-state BFS over connection-event histories on the real full stack with a lifecycle monitor automaton",
-         "All event histories up to a depth over the lifecycle alphabet are executed on the real default stack (network..interface) with dispatcher and Noise doubles; a reference automaton checks alternation, no-write-while-down, reconnect and keep-alive rules in every state.",
+         "All event histories up to a depth over the lifecycle alphabet are executed on the real default stack (network..interface) with dispatcher and Noise doubles; a reference automaton checks alternation, no-write-while-down, reconnect and keep-alive rules in every state; the dispatcher double's callback discipline is checked on the real asyncore dispatcher over loopback for all scripts up to depth 2 / 3.",
          "Dispatcher double conformance-checked against the real dispatcher classes.", "3/C16"),
  "C17": ("model_checking", "exhaustive enumeration of publish/reinstall/send/restart histories on real stacks",
          "All histories up to a length for 2-3 accounts with autotrust on/off run on real stacks against the server double; pin invariants evaluated after every event.",
